@@ -85,6 +85,7 @@ type World struct {
 	lastRefresh       time.Time
 	NoKeepAlive       bool
 	propsThisStep     int
+	errAckDone        bool
 	createsThisStep   int
 	stepExtra         func() []TxSpec
 	providerBlockOpts func() *BlockOpts
